@@ -153,6 +153,11 @@ func Gen(r *rand.Rand, cfg Cfg) (*Program, []string) {
 					g.feat["import"] = true
 				}
 			}
+			if len(c.f.Imports) >= 2 && r.Intn(5) == 0 {
+				// the first library imported once more at the end: later imports win, so it regains precedence
+				c.f.Imports = append(c.f.Imports, c.f.Imports[0])
+				g.feat["import-repeated"] = true
+			}
 		}
 	}
 	chain[len(chain)-1].runs = true
